@@ -257,6 +257,8 @@ class C13(OptEngineBase):
         else:
             cycles = rng.choice([1, 1, 2, 2, 3, 4, 5])
             paths = ["/simfs/a.g2o", "/simfs/b.g2o", "/simfs/dir/c.g2o"]
+            if rng.random() < 0.2:
+                paths = ["/simfs/map", "/simfs/out.txt", "/simfs/dir/graph.G2O"]  # the path is the caller's business
             cur = rng.choice(paths)
             for c in range(cycles):
                 if c > 0 and meta["magnitude"] == "moderate" and rng.random() < 0.25:
